@@ -133,6 +133,37 @@ pub fn record(suite: &str, _n: usize, _seed: u64, _arg: &str, out: &mut dyn Writ
             let h2 = decaf377::Fq::from_le_bytes_mod_order(&limbs_to_bytes(<G2C as CurveConfig>::COFACTOR));
             kb("G2_COFACTOR_TIMES_INV", "G2 COFACTOR * COFACTOR_INV", (h2 * <G2C as CurveConfig>::COFACTOR_INV).to_bytes_le().to_vec());
             let _ = <ark_bls12_377::Config as Bls12Config>::X;
+            // the extension tower: every Frobenius coefficient, one event each (they are validated in parallel)
+            {
+                use ark_ff::{Fp12Config, Fp2Config, Fp6Config};
+                trait Cfg12 {
+                    type C: ark_ff::Fp12Config;
+                }
+                impl<P: ark_ff::Fp12Config> Cfg12 for ark_ff::Fp12<P> {
+                    type C = P;
+                }
+                type C12 = <<E as Pairing>::TargetField as Cfg12>::C;
+                type C6 = <C12 as Fp12Config>::Fp6Config;
+                type C2 = <C6 as Fp6Config>::Fp2Config;
+                let mut kt = |out: &mut dyn Write, name: &str, i: usize, val: Vec<Vec<u8>>| {
+                    emit(out, json!({"k":"reset","build":BUILD}));
+                    emit(out, json!({"k":"konst","scope":"tower","name":name,"form":format!("{}[{}]", name, i),"i":i,"val":val,"build":BUILD}));
+                };
+                kt(out, "FP2_NONRESIDUE", 0, vec![C2::NONRESIDUE.to_bytes_le().to_vec()]);
+                kt(out, "FP6_NONRESIDUE", 0, vec![C6::NONRESIDUE.c0.to_bytes_le().to_vec(), C6::NONRESIDUE.c1.to_bytes_le().to_vec()]);
+                for (i, c) in C2::FROBENIUS_COEFF_FP2_C1.iter().enumerate() {
+                    kt(out, "FROBENIUS_COEFF_FP2_C1", i, vec![c.to_bytes_le().to_vec()]);
+                }
+                for (i, c) in C6::FROBENIUS_COEFF_FP6_C1.iter().enumerate() {
+                    kt(out, "FROBENIUS_COEFF_FP6_C1", i, vec![c.c0.to_bytes_le().to_vec(), c.c1.to_bytes_le().to_vec()]);
+                }
+                for (i, c) in C6::FROBENIUS_COEFF_FP6_C2.iter().enumerate() {
+                    kt(out, "FROBENIUS_COEFF_FP6_C2", i, vec![c.c0.to_bytes_le().to_vec(), c.c1.to_bytes_le().to_vec()]);
+                }
+                for (i, c) in C12::FROBENIUS_COEFF_FP12_C1.iter().enumerate() {
+                    kt(out, "FROBENIUS_COEFF_FP12_C1", i, vec![c.c0.to_bytes_le().to_vec(), c.c1.to_bytes_le().to_vec()]);
+                }
+            }
         }
     }
     true
